@@ -76,11 +76,11 @@ func (d *uripostDecoder) Scan(ctx context.Context) (DecodedAmmo, error) {
 
 		// seek file
 		d.passNum++
-		if d.config.Passes != 0 && d.passNum >= d.config.Passes {
-			return nil, ErrPassLimit
-		}
 		if d.ammoNum == 0 {
 			return nil, ErrNoAmmo
+		}
+		if d.config.Passes != 0 && d.passNum >= d.config.Passes {
+			return nil, ErrPassLimit
 		}
 		d.header = make(http.Header)
 		_, err := d.file.Seek(0, io.SeekStart)
